@@ -35,7 +35,7 @@ def run(ctx: Ctx) -> None:
             for prefix in range(0, start):
                 n += 1
                 span = Tok("span", file="f.py", start=Tok("start", line=start), end=Tok("end", line=end))
-                self_tok = Tok("self", sources={"f.py": list(src)})
+                self_tok = Tok("self", sources={"f.py": list(src)}, __classes__=(sl.cls.mro() if sl.cls is not None else []))
                 kwargs = {ps[0]: self_tok, ps[1]: span}
                 if len(ps) > 2:
                     kwargs[ps[2]] = prefix
